@@ -17,6 +17,8 @@
 #             C01, C03, C05, C06, C13, C14, C16, C19 -> valgrind memcheck as well (uninitialised reads)
 #             C02, C04, C07, C10  -> Miri on the pure-Rust decode/model paths (a lane each)
 #             C03, C08, C09, C11-C14 -> Miri, one shared lane ("rest")
+#             C01-C14, C16, C19   -> ThreadSanitizer (std rebuilt with -Zbuild-std): data races in
+#             state a change made `unsafe`ly shared; the shadow runs provide the concurrent callers
 #   (the main run of every check has the guard allocator of harness/src/mon.rs; the valgrind and
 #    ASan lanes switch it off, VERIF_GUARD_ALLOC=0, so that the tools see the memory as it is)
 set -u
@@ -29,9 +31,9 @@ export CARGO_NET_OFFLINE=true
 lanes=()
 case "$TIER:$PROP" in
   quick:C05|quick:C06) lanes=(valgrind) ;;
-  thorough:C03|thorough:C13|thorough:C14) lanes=(valgrind asan miri) ;;
-  thorough:C05|thorough:C06|thorough:C01|thorough:C16|thorough:C19) lanes=(valgrind asan) ;;
-  thorough:C02|thorough:C04|thorough:C07|thorough:C10|thorough:C08|thorough:C09|thorough:C11|thorough:C12) lanes=(miri asan) ;;
+  thorough:C03|thorough:C13|thorough:C14) lanes=(valgrind asan tsan miri) ;;
+  thorough:C05|thorough:C06|thorough:C01|thorough:C16|thorough:C19) lanes=(valgrind asan tsan) ;;
+  thorough:C02|thorough:C04|thorough:C07|thorough:C10|thorough:C08|thorough:C09|thorough:C11|thorough:C12) lanes=(miri asan tsan) ;;
   thorough:C20) ;;
   thorough:*) lanes=(asan) ;;
 esac
@@ -112,6 +114,32 @@ for lane in "${lanes[@]}"; do
       else STATUS=clean; fi
       echo "observed: lane=asan+instrumented-libbz2 property=$PROP inputs=$INPUTS reports=$REPORTS libbz2_asan_symbols=$INSTR"
       note "asan+libbz2(asan symbols in libbz2.a: $INSTR)" "$INPUTS" "$REPORTS" "$(echo "$(date +%s.%N) - $T0" | bc)" "$CMD" "$STATUS"
+      ;;
+    tsan)
+      LOG="$OUT/tsan.log"; mkdir -p "$OUT/tsan-evidence"
+      ( cd "$ROOT/harness" && CC=clang-14 CFLAGS="-fsanitize=thread" RUSTFLAGS="-Zsanitizer=thread" \
+          cargo +nightly build -Zbuild-std --release --offline --target x86_64-unknown-linux-gnu --target-dir "$ROOT/harness/target-tsan" ) > "$OUT/tsan-build.log" 2>&1
+      if [ $? -ne 0 ]; then
+        echo "INCONCLUSIVE: property=$PROP TSan build of the harness failed (see $OUT/tsan-build.log)"; RC=2
+        note tsan 0 0 0 "build" inconclusive; continue
+      fi
+      BIN="$ROOT/harness/target-tsan/x86_64-unknown-linux-gnu/release/nxverif"
+      CMD="TSAN_OPTIONS=halt_on_error=0:exitcode=66 VERIF_CASES_DIV=8 $BIN $PROP quick   # built with -Zsanitizer=thread -Zbuild-std"
+      TSAN_OPTIONS="halt_on_error=0:exitcode=66:log_path=$OUT/tsan-report" \
+        VERIF_GUARD_ALLOC=0 VERIF_CASES_DIV=8 VERIF_EVIDENCE_DIR="$OUT/tsan-evidence" VERIF_REPLAY_DIR="$OUT" VERIF_WATCHDOG_S=3000 "$BIN" "$PROP" quick > "$LOG" 2>&1
+      LRC=$?
+      REPORTS=$(cat "$OUT"/tsan-report.* 2>/dev/null | grep -c 'WARNING: ThreadSanitizer')
+      INPUTS=$(evals_of "$OUT/tsan-evidence/$PROP.json")
+      if [ "$REPORTS" != "0" ] || [ $LRC -eq 66 ]; then
+        R=$(ls "$OUT"/tsan-report.* 2>/dev/null | head -1)
+        echo "violation-detail: [ThreadSanitizer report while running the $PROP workload with its shadow runs]"; grep -A14 'WARNING: ThreadSanitizer' "${R:-$LOG}" | head -24
+        echo "VIOLATION property=$PROP replay=${R:-$LOG}"; RC=1; STATUS=report
+      elif [ $LRC -ne 0 ]; then
+        if grep -q '^VIOLATION' "$LOG"; then grep -E '^(violation-detail|VIOLATION)' "$LOG" | sed "s/^violation-detail: \\[/violation-detail: [under ThreadSanitizer: /" | head -8; RC=1; STATUS=violation
+        else echo "INCONCLUSIVE: property=$PROP TSan lane exited $LRC (see $LOG)"; RC=2; STATUS=inconclusive; fi
+      else STATUS=clean; fi
+      echo "observed: lane=tsan property=$PROP inputs=$INPUTS reports=$REPORTS"
+      note "tsan(-Zbuild-std)" "$INPUTS" "$REPORTS" "$(echo "$(date +%s.%N) - $T0" | bc)" "$CMD" "$STATUS"
       ;;
     relprofile|allfeat|minfeat)
       # the same harness, the same workload (reduced), built another way
